@@ -4,7 +4,8 @@ on the other side of the operator.
 
 * `Operand` — the other operand: an instance of `ObsTime` or of a class derived from it (`inst cls t`; `cls = 0` is
   `ObsTime` itself, `cls = k > 0` the k-th derived class: a user class that overrides `__str__`, adds a method, …), or
-  an object of another type (`other`: `None`, a number, a string, a tuple of the seven fields, a `datetime`, …).
+  an object of another type without calendar attributes (`other`: `None`, a number, a string, a tuple, list or dict of
+  the seven fields, `object()`; not a `datetime`, which has a `year`).
 * `eqO` — `ObsTime.__eq__(self, time)`: `if not isinstance(time, ObsTime): return False`, then the field cascade
   `eqS`. `isinstance` accepts every derived class: neither the class of `self` nor that of `time` is read.
 * `neO` — `ObsTime.__ne__(self, time)`: `not (time == self)`. For a timestamp `time` that is `time.__eq__(self)`
